@@ -83,6 +83,8 @@ def canon(v):
         return ("<ResultLike>", v.term)
     if isinstance(v, DataLike):
         return ("<DataLike>", v.term)
+    if isinstance(v, AwaitLike):
+        return ("<AwaitLike>", v.term)
     if hasattr(v, "__dataclass_fields__"):
         return f"<{type(v).__name__} {v!r}>"  # e.g. pipefunc Resources handed to the function
     if isinstance(v, (set, frozenset)):
@@ -144,6 +146,10 @@ class CustomError(Exception):
         self.detail = detail
 
 
+class Exhausted(StopIteration):
+    """A user-defined subclass of StopIteration (iterator protocols of the user's own)."""
+
+
 class KwOnlyError(Exception):
     """Keyword-only constructor, empty args, picklable through its own __reduce__."""
 
@@ -160,7 +166,7 @@ def _make_kwonly(code):
 
 
 EXC_KINDS = ("ValueError", "KeyError", "ZeroDivisionError", "RuntimeError0", "CustomError", "KwOnlyError", "FileNotFoundError",
-             "StopIteration", "TimeoutError")
+             "StopIteration", "TimeoutError", "Exhausted")
 
 
 def make_exc(kind: str):
@@ -182,6 +188,8 @@ def make_exc(kind: str):
         return StopIteration("exhausted")  # e.g. next(it) without default inside the user function
     if kind == "FileNotFoundError":
         return FileNotFoundError(2, "no such thing", "some/file")  # OSError's special constructor
+    if kind == "Exhausted":
+        return Exhausted(42)  # a user-defined subclass of StopIteration
     if kind == "WorkerDeath":
         from .kernel import SimWorkerDeath
 
@@ -296,6 +304,8 @@ class Fn:
                 return (Term(base, args, "a"), Term(base, args, "b"))
             if self.result_like and self.out_shape is None:
                 return ResultLike(Term(base, args))
+            if self.data_like == "await" and self.out_shape is None:
+                return AwaitLike(Term(base, args))
             if self.data_like and self.out_shape is None:
                 return DataLike(Term(base, args))
             return self._one(base, args)
@@ -350,6 +360,30 @@ class ResultLike:
 
     def __reduce__(self):
         return (ResultLike, (self.term,))
+
+
+class AwaitLike:
+    """A user value that happens to be awaitable (a handle to remote work, say): a value like any other - nobody may
+    await it on the user's behalf."""
+
+    def __init__(self, term):
+        self.term = term
+
+    def __await__(self):
+        return iter(())  # awaiting it yields None: the value would be lost
+        yield  # pragma: no cover
+
+    def __eq__(self, other):
+        return isinstance(other, AwaitLike) and other.term == self.term
+
+    def __hash__(self):
+        return hash(("AwaitLike", self.term))
+
+    def __repr__(self):
+        return f"AwaitLike({self.term!r})"
+
+    def __reduce__(self):
+        return (AwaitLike, (self.term,))
 
 
 class DataLike:
